@@ -122,8 +122,9 @@ impl Array4 {
 
     /// Adopt the estimator mode and HIP accumulator of an array holding the same registers
     pub(super) fn set_estimator_mode(&mut self, out_of_order: bool, hip_accum: f64) {
-        self.estimator.set_out_of_order(out_of_order);
+        // going out-of-order invalidates (zeroes) the accumulator, so set it first
         self.estimator.set_hip_accum(hip_accum);
+        self.estimator.set_out_of_order(out_of_order);
     }
 
     /// Set raw 4-bit value in slot
